@@ -4,6 +4,7 @@ package c18
 import (
 	"fmt"
 	"os"
+	"reflect"
 	"runtime"
 	"sort"
 	"strconv"
@@ -57,8 +58,12 @@ func checkSeq(c SeqCase, o *stats.Obs) error {
 	}
 	q := cq.NewCircularQueue(c.Cap)
 	if c.StartIndex > 0 {
-		q.NextIndex = c.StartIndex
-		o.Class("pre-aged-index")
+		// set through reflection so that the harness does not depend on the field's exact integer type
+		f := reflect.ValueOf(q).Elem().FieldByName("NextIndex")
+		if f.IsValid() && f.CanSet() && f.CanInt() {
+			f.SetInt(int64(c.StartIndex))
+			o.Class("pre-aged-index")
+		}
 	}
 	var model []int
 	next := 1
@@ -445,5 +450,142 @@ func genConc(t *rapid.T) ConcCase {
 var propConc = stats.Prop(R, "concurrent", genConc, checkConc)
 
 func TestConcurrent(t *testing.T) { rapid.Check(t, propConc) }
+
+// ---- stress: many adders and readers; structural oracle on each reader's successive snapshots
+
+type StressCase struct {
+	Cap      int `json:"capacity"`
+	Adders   int `json:"adders"`
+	Adds     int `json:"adds_each"`
+	Readers  int `json:"readers"`
+	Snaps    int `json:"snapshots_each"`
+	Procs    int `json:"gomaxprocs"`
+	YieldSd  int `json:"yield_seed"`
+	YieldMod int `json:"yield_mode"`
+}
+
+// laterWindow: s2 was taken after s1 by the same reader, so it must be a later window of the same
+// arrival order - what they share is a suffix of s1 and a prefix of s2, in the same order.
+func laterWindow(s1, s2 []int) string {
+	in1 := map[int]int{}
+	for i, v := range s1 {
+		in1[v] = i
+	}
+	firstCommon1, lastIdx1 := -1, -1
+	seenNew := false
+	for _, v := range s2 {
+		i, ok := in1[v]
+		if !ok {
+			seenNew = true
+			continue
+		}
+		if seenNew {
+			return fmt.Sprintf("message %d is in both snapshots but comes after a message that only the later snapshot has", v)
+		}
+		if i < lastIdx1 {
+			return fmt.Sprintf("messages common to both snapshots are in a different order (around %d)", v)
+		}
+		if firstCommon1 < 0 {
+			firstCommon1 = i
+		} else if i != lastIdx1+1 {
+			return fmt.Sprintf("the common part is not contiguous in the earlier snapshot (around %d)", v)
+		}
+		lastIdx1 = i
+	}
+	if firstCommon1 >= 0 && lastIdx1 != len(s1)-1 {
+		return fmt.Sprintf("message %d of the earlier snapshot is newer than the common part but missing from the later snapshot", s1[len(s1)-1])
+	}
+	return ""
+}
+
+func checkStress(c StressCase, o *stats.Obs) error {
+	if c.Cap < 1 || c.Adders < 1 || c.Readers < 1 {
+		o.Skip = true
+		return nil
+	}
+	if c.Procs > 0 {
+		old := runtime.GOMAXPROCS(c.Procs)
+		defer runtime.GOMAXPROCS(old)
+	}
+	vhsched.Configure(uint64(c.YieldSd)+1, c.YieldMod, 20, 2)
+	defer vhsched.Configure(1, 0, 0, 1)
+	q := cq.NewCircularQueue(c.Cap)
+	start := make(chan struct{})
+	var wg sync.WaitGroup
+	for a := 0; a < c.Adders; a++ {
+		wg.Add(1)
+		go func(a int) {
+			defer wg.Done()
+			<-start
+			for k := 1; k <= c.Adds; k++ {
+				q.Add(msg((a+1)*100000 + k))
+			}
+		}(a)
+	}
+	problems := make([]string, c.Readers)
+	for r := 0; r < c.Readers; r++ {
+		wg.Add(1)
+		go func(r int) {
+			defer wg.Done()
+			<-start
+			var prev []int
+			for k := 0; k < c.Snaps && problems[r] == ""; k++ {
+				cur := ids(q.GetMessages())
+				if len(cur) > c.Cap {
+					problems[r] = fmt.Sprintf("snapshot with %d messages, capacity %d: %v", len(cur), c.Cap, cur)
+					break
+				}
+				last := map[int]int{}
+				for _, id := range cur {
+					cl := id / 100000
+					if p, ok := last[cl]; ok && id != p+1 {
+						problems[r] = fmt.Sprintf("snapshot %v: messages of adder %d are not a contiguous ascending run", cur, cl)
+					}
+					last[cl] = id
+				}
+				if prev != nil && problems[r] == "" {
+					if d := laterWindow(prev, cur); d != "" {
+						problems[r] = fmt.Sprintf("two successive snapshots of one reader are not windows of one arrival order: %s\n earlier %v\n later   %v", d, prev, cur)
+					}
+				}
+				prev = cur
+			}
+		}(r)
+	}
+	close(start)
+	done := make(chan struct{})
+	go func() { wg.Wait(); close(done) }()
+	select {
+	case <-done:
+	case <-time.After(60 * time.Second):
+		o.Key = "deadlock"
+		return fmt.Errorf("adders/readers did not finish within 60 s (capacity %d, %d adders, %d readers)", c.Cap, c.Adders, c.Readers)
+	}
+	for _, p := range problems {
+		if p != "" {
+			o.Key = "snapshots-inconsistent"
+			return fmt.Errorf("capacity %d, %d adders x %d, %d readers: %s", c.Cap, c.Adders, c.Adds, c.Readers, p)
+		}
+	}
+	if n := len(q.Items); n > c.Cap {
+		o.Key = "over-capacity"
+		return fmt.Errorf("capacity %d: queue holds %d items after the run", c.Cap, n)
+	}
+	o.NonTrivial = c.Adders*c.Adds > c.Cap
+	o.Class("stress")
+	return nil
+}
+
+func genStress(t *rapid.T) StressCase {
+	return StressCase{
+		Cap: rapid.IntRange(1, 20).Draw(t, "capacity"), Adders: rapid.IntRange(1, 8).Draw(t, "adders"), Adds: rapid.IntRange(20, 150).Draw(t, "adds"),
+		Readers: rapid.IntRange(1, 4).Draw(t, "readers"), Snaps: rapid.IntRange(20, 150).Draw(t, "snaps"),
+		Procs: rapid.SampledFrom([]int{0, 0, 2, 4, 16}).Draw(t, "procs"), YieldSd: rapid.IntRange(0, 1<<30).Draw(t, "yieldSeed"), YieldMod: rapid.IntRange(0, 2).Draw(t, "yieldMode"),
+	}
+}
+
+var propStress = stats.Prop(R, "stress", genStress, checkStress)
+
+func TestStress(t *testing.T) { rapid.Check(t, propStress) }
 
 func TestReplay(t *testing.T) { R.Replay(t) }
